@@ -17,11 +17,16 @@ def order_scenarios(rng, n):
         via_setter = rng.random() < .4
         sc['pool'].pop('order_tasks', None)
         if via_setter:
-            sc['ops'].insert(0, {'op': 'set', 'what': 'order_tasks', 'value': True})
+            # before the first call, or on a live keep-alive pool after a call ran without it
+            live = len(sc['ops']) >= 2 and rng.random() < .5
+            sc['ops'].insert(1 if live else 0, {'op': 'set', 'what': 'order_tasks', 'value': True})
             sc['order_tasks_effective'] = True
+            if live:
+                sc['pool']['keep_alive'] = True
+                sc['setter_on_live_pool'] = True
         else:
             sc['pool']['order_tasks'] = True
-        if rng.random() < .5:
+        if rng.random() < .5 or sc.get('setter_on_live_pool'):
             sc['pool']['keep_alive'] = True
         for op in sc['ops']:
             if op['op'] == 'set':
@@ -67,7 +72,7 @@ def run(chk):
     scs = order_scenarios(rng, 250 if chk.tier == 'quick' else 4000)
     run_scenarios(chk, 'whole calls with order_tasks under DetSim', scs, {'C16'},
                   nontrivial=lambda sc, o: len(o.get('calls', [])) > sc['pool']['n_jobs'],
-                  dist=lambda sc, o: {'via': 'setter' if sc.get('order_tasks_effective') else 'constructor', 'keep_alive': bool(sc['pool'].get('keep_alive')),
+                  dist=lambda sc, o: {'via': ('setter-live' if sc.get('setter_on_live_pool') else 'setter') if sc.get('order_tasks_effective') else 'constructor', 'keep_alive': bool(sc['pool'].get('keep_alive')),
                                       'lifespan': any(op.get('worker_lifespan') for op in sc['ops']), 'n_jobs': sc['pool']['n_jobs']})
 
     def search():
